@@ -40,30 +40,67 @@ def reduction_shape(v, f, bytes_t):
     if not (v.op == "proj" and v.args[0].op == "fold"):
         return False, "not a fold over the chunks: %s" % Tm.show(v, maxdepth=4)
     it, item, accs, inits, nexts = v.args[0].args
-    if it.op != "rev":
-        return False, "chunks must be folded from the most significant one (missing .rev()): iterator %s" % Tm.show(it, maxdepth=3)
-    m = it.args[0]
+    forward = it.op != "rev"
+    if forward and len(accs) != 2:
+        return False, "chunks must be folded from the most significant one (missing .rev()), or from the least significant one with a running power of 2^%d: iterator %s" % (8 * n8(f), Tm.show(it, maxdepth=3))
+    m = it if forward else it.args[0]
 
     def padded(ch):
         return mk("from_le_bytes_mod_order", f, mk("store", mk("repeat", lit(0), N8), mk("struct", "core::ops::RangeTo", ("end",), mk("len", ch)), ch))
     if m.op == "seq_map_t":
         # chunks.map(pad + reduce).rev().fold(..): the folded item is the reduced chunk
         ch_item, body, src = m.args
-        if body is not padded(ch_item):
+        if src.op == "rchunks" and bytes_t.op == "rev" and src.args[0] is bytes_t.args[0] and src.args[1] is lit(N8):
+            # chunk i counted from the end of the big-endian input, reversed, is chunk i of the reversed (little-endian) input
+            rv = mk("from_le_bytes_mod_order", f, mk("store", mk("repeat", lit(0), N8), mk("struct", "core::ops::RangeTo", ("end",), mk("len", ch_item)), mk("rev", ch_item)))
+            if body is not rv:
+                return False, "each chunk taken from the end of the big-endian input must be reversed into the low end of a zeroed %d-byte buffer and reduced; got %s" % (N8, Tm.show(body, maxdepth=6))
+            src = mk("chunks", bytes_t, lit(N8))
+        elif body is not padded(ch_item):
             return False, "each chunk must be zero-padded on the high side to %d bytes (padded[..x.len()] = x) and reduced; got %s" % (N8, Tm.show(body, maxdepth=6))
         x_term = item
     else:
         # for chunk in chunks.rev() { acc = acc*C + reduce(pad(chunk)) }: the folded item is the raw chunk
         src = m
         x_term = padded(item)
+    init_ok = None
+    if not forward and src.op == "chunks_exact" and src.args[0] is bytes_t and src.args[1] is lit(N8) and len(accs) == 1:
+        # chunks(N8) == chunks_exact(N8) followed by the remainder when that is non-empty; the remainder is the most significant
+        # chunk, so it may seed the accumulator (an empty remainder pads to 0, so testing for emptiness is optional)
+        rem = mk("chunks_rem", bytes_t, lit(N8))
+        seeds = (padded(rem), Tm.ite(Tm.eq(mk("len", rem), lit(0)), felem(f, 0), padded(rem)))
+        if not any(inits[0] is s_ for s_ in seeds):
+            return False, "with chunks_exact the accumulator must be seeded with the zero-padded, reduced remainder (the most significant chunk); got %s" % Tm.show(inits[0], maxdepth=5)
+        init_ok = True
+        # a full chunk copied into an N8-byte buffer is the chunk itself
+        full = mk("from_le_bytes_mod_order", f, item)
+        if m.op != "seq_map_t":
+            x_alt = full
+        else:
+            x_alt = None
+        src = mk("chunks", bytes_t, lit(N8))
+    else:
+        x_alt = None
     if not (src.op == "chunks" and src.args[0] is bytes_t and src.args[1] is lit(N8)):
         return False, "input must be split into chunks of N_8 = %d bytes of the given byte string; got %s" % (N8, Tm.show(src, maxdepth=4))
-    if len(accs) != 1 or inits[0] is not felem(f, 0):
-        return False, "accumulator must start at 0"
     N = P.Norm(p)
     Cc = pow(2, 8 * N8, p)
+    if forward:
+        # sum_i x_i * C^i evaluated from the least significant chunk: state (acc, shift) = (0, 1), acc += x * shift, shift *= C
+        ia = v.args[1]
+        if ia not in (0, 1) or inits[ia] is not felem(f, 0) or inits[1 - ia] is not felem(f, 1):
+            return False, "forward evaluation must start at (acc, power) = (0, 1) and return acc; inits %s" % [Tm.show(x) for x in inits]
+        acc, sh = accs[ia], accs[1 - ia]
+        if N.pkey(N.poly(nexts[1 - ia])) != N.pkey(N.poly(mk("mul", sh, felem(f, Cc)))):
+            return False, "the running power must be multiplied by 2^%d mod p = %s per chunk; got %s" % (8 * N8, hex(Cc), Tm.show(nexts[1 - ia], maxdepth=5))
+        if N.pkey(N.poly(nexts[ia])) != N.pkey(N.poly(mk("add", acc, mk("mul", x_term, sh)))):
+            return False, "step must be acc + x * power (x = the zero-padded, reduced chunk); got %s" % Tm.show(nexts[ia], maxdepth=5)
+        return True, "sum of chunk_i * (2^%d)^i from the least significant %d-byte chunk with a running power" % (8 * N8, N8)
+    if len(accs) != 1 or not (init_ok or inits[0] is felem(f, 0)):
+        return False, "accumulator must start at 0"
     want = mk("add", mk("mul", accs[0], felem(f, Cc)), x_term)
-    if N.pkey(N.poly(nexts[0])) != N.pkey(N.poly(want)):
+    wants = [want] + ([mk("add", mk("mul", accs[0], felem(f, Cc)), x_alt)] if x_alt is not None else [])
+    if all(N.pkey(N.poly(nexts[0])) != N.pkey(N.poly(w_)) for w_ in wants):
         return False, "step must be acc * 2^(8*N_8) + x (x = the zero-padded, reduced chunk) with the constant 2^%d mod p = %s; got %s" % (8 * N8, hex(Cc), Tm.show(nexts[0], maxdepth=5))
     return True, "Horner from the most significant %d-byte chunk with multiplier 2^%d mod p" % (N8, 8 * N8)
 
